@@ -680,6 +680,14 @@ func (k *KDC) issue(a issueArgs) []byte {
 			rep.CName = rk.ParseName(a.cname.String() + "x")
 		case "cname-extra":
 			rep.CName = rk.ParseName(a.cname.String() + "/admin")
+		case "cname-regroup":
+			// the same characters in other components: {"a","b"} becomes the one component "a/b"
+			// (and a one-component name {"a"} becomes {"a",""})
+			if len(a.cname.Names) > 1 {
+				rep.CName = rk.PrincipalName{Type: a.cname.Type, Names: []string{a.cname.String()}}
+			} else {
+				rep.CName = rk.PrincipalName{Type: a.cname.Type, Names: []string{a.cname.String(), ""}}
+			}
 		case "crealm":
 			rep.CRealm = "EVIL.TEST"
 		case "sealed-sname":
